@@ -19,6 +19,7 @@ EXPLANATION = (
     "Seconds; nanos*()/to_nanos() <-> Nanoseconds). OBS-5: Content-Length is len() of the very String written as "
     "body. OBS-6: every metric family is written by exactly one format_metric call outside any loop (HELP/TYPE/"
     "UNIT once per family)."
+    " OBS-9: a label's value is read from a field chain that shares a distinguishing word with the label name (parent_* is not filled from grandmaster_*)."
 )
 NOT_DECIDED = "JSON value round trip through serde_json; label escaping; numeric formatting of Display"
 
